@@ -317,3 +317,181 @@ class Gen:
             else:
                 ops.append(dict(op="describe_table", client=c, table=r.choice(TABLES)))
         return ops
+
+
+# ======================= expression-level generators =======================
+ATTRS = ["a", "b", "c", "d", "e"]
+TYPES = ["S", "N", "B", "BOOL", "NULL", "L", "M", "SS", "NS", "BS"]
+RESERVED_SAMPLE = ["name", "size", "status", "Count", "DATA", "user", "values", "Zone", "comment", "hidden"]
+
+
+class ExprGen(Gen):
+    def typed_value(self, t, depth=1):
+        r = self.r
+        if t == "S": return S(r.choice(["", "x", "xy", "y", "hello", "a b", "S", "N"]))
+        if t == "N": return N(r.choice(NUMS))
+        if t == "B": return {"B": r.choice(["", "x", "xy", "\x01\x02", "\xff"])}
+        if t == "BOOL": return {"BOOL": r.random() < 0.5}
+        if t == "NULL": return {"NULL": True}
+        if t == "L": return {"L": [self.typed_value(r.choice(TYPES[:5]), 0) for _ in range(r.randrange(0, 4))]}
+        if t == "M": return {"M": {k: self.typed_value(r.choice(TYPES[:6] if depth > 0 else TYPES[:5]), depth - 1)
+                                   for k in r.sample(["x", "y", "z"], r.randrange(0, 3))}}
+        if t == "SS": return {"SS": r.sample(["x", "y", "xy", "p"], r.randrange(1, 4))}
+        if t == "NS": return {"NS": r.sample(["1", "2", "10", "1.5"], r.randrange(1, 4))}
+        return {"BS": r.sample(["x", "xy", "\x01"], r.randrange(1, 3))}
+
+    def expr_item(self):
+        r = self.r
+        it = {}
+        for a in ATTRS:
+            if r.random() < 0.75:
+                it[a] = self.typed_value(r.choice(TYPES))
+        return it
+
+    def path(self, ctx):
+        r = self.r
+        k = r.random()
+        base = r.choice(ATTRS)
+        if k < 0.08:
+            alias = "#" + r.choice(["n", "p", "q_1"])
+            ctx["names"][alias] = base
+            base = alias
+        elif k < 0.11:
+            base = r.choice(RESERVED_SAMPLE)
+        k = r.random()
+        if k < 0.7: return base
+        if k < 0.82: return base + "." + r.choice(["x", "y", "z"])
+        if k < 0.94: return base + "[%d]" % r.randrange(0, 4)
+        return base + "." + r.choice(["x", "y"]) + r.choice([".z", "[0]", ""])
+
+    def val(self, ctx, t=None):
+        r = self.r
+        name = ":v%d" % len(ctx["values"])
+        ctx["values"][name] = self.typed_value(t or r.choice(TYPES))
+        return name
+
+    def operand(self, ctx):
+        r = self.r
+        k = r.random()
+        if k < 0.45: return self.path(ctx)
+        if k < 0.92: return self.val(ctx, r.choice(["S", "N", "B", "S", "N", "BOOL", "NULL", "SS", "L"]))
+        return "size(%s)" % self.path(ctx)
+
+    def cond_expr(self, ctx, depth):
+        r = self.r
+        k = r.random()
+        if depth <= 0 or k < 0.45:
+            k = r.random()
+            if k < 0.40:
+                return "%s %s %s" % (self.operand(ctx), r.choice(["=", "<>", "<", "<=", ">", ">="]), self.operand(ctx))
+            if k < 0.50:
+                t = r.choice(["S", "N", "B"])
+                return "%s BETWEEN %s AND %s" % (self.path(ctx), self.val(ctx, t), self.val(ctx, r.choice([t, t, "S"])))
+            if k < 0.60:
+                t = r.choice(["S", "N", "BOOL"])
+                return "%s IN (%s)" % (self.path(ctx), ", ".join(self.val(ctx, r.choice([t, t, "S"])) for _ in range(r.randrange(1, 4))))
+            if k < 0.70: return "attribute_exists(%s)" % self.path(ctx)
+            if k < 0.78: return "attribute_not_exists(%s)" % self.path(ctx)
+            if k < 0.85:
+                name = ":v%d" % len(ctx["values"])
+                ctx["values"][name] = S(r.choice(TYPES + ["Q", ""]))
+                return "attribute_type(%s, %s)" % (self.path(ctx), name)
+            if k < 0.92: return "begins_with(%s, %s)" % (self.path(ctx), self.val(ctx, r.choice(["S", "S", "B", "N"])))
+            return "contains(%s, %s)" % (self.path(ctx), self.val(ctx, r.choice(["S", "N", "B", "SS", "BOOL"])))
+        if k < 0.62: return "%s AND %s" % (self.cond_expr(ctx, depth - 1), self.cond_expr(ctx, depth - 1))
+        if k < 0.78: return "%s OR %s" % (self.cond_expr(ctx, depth - 1), self.cond_expr(ctx, depth - 1))
+        if k < 0.90: return "NOT %s" % self.cond_expr(ctx, depth - 1)
+        return "(%s)" % self.cond_expr(ctx, depth - 1)
+
+    def match_case(self, depth=3):
+        ctx = dict(names={}, values={})
+        e = self.cond_expr(ctx, self.r.randrange(0, depth + 1))
+        return dict(op="match", expr=e, item=self.expr_item(), names=ctx["names"], values=ctx["values"])
+
+    # ---- update expressions: every action targets a different top-level attribute ----
+    def upd_operand(self, ctx, t):
+        r = self.r
+        if r.random() < 0.4: return self.path(ctx)
+        return self.val(ctx, t)
+
+    def update_case(self):
+        r = self.r
+        ctx = dict(names={}, values={})
+        targets = r.sample(ATTRS + ["f", "g"], r.randrange(1, 5))
+        clauses = {"SET": [], "REMOVE": [], "ADD": [], "DELETE": []}
+        for tg in targets:
+            k = r.random()
+            tgt = tg
+            if r.random() < 0.25: tgt = tg + r.choice([".x", "[0]", "[1]", ".y.z", "[7]"])
+            if r.random() < 0.06:
+                ctx["names"]["#t"] = tg; tgt = "#t" if "." not in tgt and "[" not in tgt else tgt
+            if k < 0.5:
+                q = r.random()
+                t = r.choice(TYPES)
+                if q < 0.45: rhs = self.val(ctx, t)
+                elif q < 0.6: rhs = "%s %s %s" % (self.upd_operand(ctx, "N"), r.choice("+-"), self.upd_operand(ctx, "N"))
+                elif q < 0.75: rhs = "if_not_exists(%s, %s)" % (self.path(ctx), self.val(ctx, t))
+                elif q < 0.9: rhs = "list_append(%s, %s)" % (self.upd_operand(ctx, "L"), self.upd_operand(ctx, "L"))
+                else: rhs = self.path(ctx)
+                clauses["SET"].append("%s = %s" % (tgt, rhs))
+            elif k < 0.7:
+                clauses["REMOVE"].append(tgt)
+            elif k < 0.88:
+                clauses["ADD"].append("%s %s" % (tg, self.val(ctx, r.choice(["N", "SS", "NS", "BS", "S", "L"]))))
+            else:
+                clauses["DELETE"].append("%s %s" % (tg, self.val(ctx, r.choice(["SS", "NS", "BS", "S", "N"]))))
+        order = [c for c in ["SET", "REMOVE", "ADD", "DELETE"] if clauses[c]]
+        r.shuffle(order)
+        e = " ".join("%s %s" % (c, ", ".join(clauses[c])) for c in order)
+        return dict(op="lang_update", expr=e, item=self.expr_item(), names=ctx["names"], values=ctx["values"])
+
+    # ---- malformed: token-level mutations of valid sentences, stray bytes ----
+    def mutate(self, e):
+        import re as _re
+        r = self.r
+        toks = _re.findall(r"[A-Za-z0-9_:#]+|<>|<=|>=|\s+|.", e)
+        if not toks: return e
+        k = r.randrange(9)
+        i = r.randrange(len(toks))
+        if k == 0: del toks[i]
+        elif k == 1: toks.insert(i, toks[i])
+        elif k == 2 and len(toks) > 1:
+            j = r.randrange(len(toks)); toks[i], toks[j] = toks[j], toks[i]
+        elif k == 3: toks[i] = toks[i].swapcase()
+        elif k == 4: toks.insert(i, r.choice(["\x00", "\x80", "$", "!", "\xff", "\t", "'", '"', "{", "&"]))
+        elif k == 5: toks = toks[:i]
+        elif k == 6: toks.insert(i, r.choice([" AND ", " OR ", " NOT ", "(", ")", ",", " BETWEEN ", " IN ", " SET ", " = ", ".", "[", "]"]))
+        elif k == 7: toks.append(" " + r.choice(toks))
+        else: toks[i] = r.choice(["and", "or", "not", "between", "in", "set", "Remove", "add"])
+        return "".join(toks)
+
+    def malformed_case(self):
+        r = self.r
+        if r.random() < 0.5:
+            c = self.match_case(2)
+            for _ in range(r.randrange(1, 3)): c["expr"] = self.mutate(c["expr"])
+            return c
+        if r.random() < 0.8:
+            c = self.update_case()
+            for _ in range(r.randrange(1, 3)): c["expr"] = self.mutate(c["expr"])
+            return c
+        n = r.randrange(0, 40)
+        alphabet = "ab:#_01 =<>(),.[]ANDORNTSEBWI\x00\x80\xff\t\n+-"
+        return dict(op=r.choice(["match", "lang_update"]), expr="".join(r.choice(alphabet) for _ in range(n)),
+                    item=self.expr_item(), names={}, values={})
+
+    def lex_parse_cases(self, c):
+        return [dict(op="lex", text=c["expr"]), dict(op="parse", text=c["expr"], update=(c["op"] == "lang_update"))]
+
+    def numeral(self):
+        r = self.r
+        k = r.random()
+        digits = lambda n: "".join(r.choice("0123456789") for _ in range(n))
+        if k < 0.3: s = str(r.randrange(-1000, 1000))
+        elif k < 0.5: s = digits(r.randrange(1, 39))
+        elif k < 0.7: s = digits(r.randrange(1, 20)) + "." + digits(r.randrange(1, 20))
+        elif k < 0.85: s = digits(r.randrange(1, 10)) + r.choice(["e", "E"]) + r.choice(["", "+", "-"]) + str(r.randrange(0, 40))
+        elif k < 0.9: s = r.choice(["9007199254740993", "0.1", "0.30000000000000004", "1e23", "-0", "0.0", "1e-7", "123456789012345678", ".5", "5.", "1e", "--1", "1.2.3", ""])
+        else: s = "0." + "0" * r.randrange(0, 10) + digits(r.randrange(1, 25))
+        if r.random() < 0.1 and not s.startswith("-"): s = "-" + s
+        return dict(op="float", text=s)
